@@ -13,7 +13,9 @@ import XlVerif.Spec.C03
   `EV`: items `key@sheet@col@row@content` joined by `;`; content `c<S wire>` or `f<rpn>`; rpn tokens joined
   by `~`: `n<int>`, `u<f>`, `b<f>`, `r<raw>^<k>^<sheet|*>^<c1>^<r1>^<c2>^<r2>` (k = c cell, r range, n name — the
   name's text is then in the sheet position).  Names `name@text@k@sheet@c1@r1@c2@r2` joined by `;`.  Probes
-  `addr@k@sheet@col@row` joined by `;` (k = a: evaluate an address; n: evaluate a defined name).
+  `addr@k@sheet@col@row` joined by `;` (k = a: evaluate an address; n: evaluate a defined name).  An optional
+  sixth field lists `set_cell_value` steps `addr@sheet@col@row@<S wire>` joined by `;`; the probes are then
+  evaluated a second time on the updated workbook (`impl2`, `spec2`, `trunc2`).
   Response `impl=o1|o2|…  spec=…  trunc=b1|b2|… (per probe: in the region of D6)  kf=<workbook-level guard D0303>`.
 -/
 namespace XlVerif.Drv.C03
@@ -142,6 +144,22 @@ def probe? (s : String) : Option ProbeIn :=
     | _ => none
   | _ => none
 
+structure UpdateIn where
+  addr : Text
+  saddr : Spec.C03.Addr
+  value : S
+
+def update? (s : String) : Option UpdateIn :=
+  match s.splitOn "@" with
+  | [a, sh, col, row, v] => do
+    let a ← parseText? a
+    let sh ← parseText? sh
+    let col ← col.toNat?
+    let row ← row.toNat?
+    let v ← S.ofWire? v
+    some ⟨a, ⟨sh, col, row⟩, v⟩
+  | _ => none
+
 def outWire (o : Out V) : String := o.wire V.wire
 
 /-- the sheet part of a reference text contains `ch` -/
@@ -155,10 +173,10 @@ def noLimit : Nat := 1000000000
 /-- the threshold named in known finding D6 (`MAX_EMPTY = 100`) -/
 def d6Threshold : Nat := 100
 
-def handleEV (dflt items names probes : String) : String :=
+def handleEV (dflt items names probes updates : String) : String :=
   match textArg? dflt, (splitField ";" items).mapM item?, (splitField ";" names).mapM name?,
-        (splitField ";" probes).mapM probe? with
-  | some dflt, some items, some names, some probes =>
+        (splitField ";" probes).mapM probe?, (splitField ";" updates).mapM update? with
+  | some dflt, some items, some names, some probes, some updates =>
     -- reference side
     let scells := items.map fun i => (i.addr, i.scell)
     let snames := names.map fun n => (n.name, n.target)
@@ -172,6 +190,20 @@ def handleEV (dflt items names probes : String) : String :=
         | some (.cell a) => Spec.C03.value cUn cBin swb bigFuel a
         | _ => .crash .valueError
     let specs := probes.map specOf
+    -- the same on the workbook after the `set_cell_value` steps (the latest value of an address wins)
+    let scells2 := scells ++ updates.map fun u =>
+      (u.saddr, match (scells.reverse.find? fun p => p.1 == u.saddr).map (·.2) with
+        | some (.formula e) => Spec.C03.SCell.formula e        -- a formula cell keeps its formula
+        | _ => Spec.C03.SCell.const u.value)
+    let swb2 : Spec.C03.Workbook :=
+      ⟨fun a => (scells2.reverse.find? fun p => p.1 == a).map (·.2), swb.names⟩
+    let specOf2 : ProbeIn → Out V
+      | .addr _ sa => Spec.C03.value cUn cBin swb2 bigFuel sa
+      | .name n =>
+        match swb2.names n with
+        | some (.cell a) => Spec.C03.value cUn cBin swb2 bigFuel a
+        | _ => .crash .valueError
+    let specs2 := probes.map specOf2
     -- implementation side
     match compile dflt (items.map fun i => (i.key, i.item)) (names.map fun n => (n.name, n.text)) with
     | .val wb =>
@@ -188,14 +220,32 @@ def handleEV (dflt items names probes : String) : String :=
       let keys := items.map (·.key)
       let flags : List String :=
         (if refs.any (sheetPartHas ',') then ["D0303"] else [])
-      kv [("impl", join "|" (impls.map outWire)), ("spec", join "|" (specs.map outWire)),
+      let second : List (String × String) :=
+        if updates.isEmpty then [] else
+          let wb2 : Out Wb := updates.foldl (fun (o : Out Wb) u =>
+            match o with
+            | .val w => setCellValue w u.addr u.value
+            | e => e) (.val wb)
+          match wb2 with
+          | .val wb2 =>
+            let ev (me : Nat) : ProbeIn → Out V
+              | .addr a _ => evaluate cUn cBin me wb2 bigFuel a
+              | .name n => evaluate cUn cBin me wb2 bigFuel n
+            let impls2 := probes.map (ev Gen.maxEmpty)
+            let listed2 := if Gen.maxEmpty == d6Threshold then impls2 else probes.map (ev d6Threshold)
+            let untr2 := probes.map (ev noLimit)
+            [("impl2", join "|" (impls2.map outWire)), ("spec2", join "|" (specs2.map outWire)),
+             ("trunc2", join "|" ((listed2.zip untr2).map fun p => if outWire p.1 == outWire p.2 then "0" else "1"))]
+          | _ => [("impl2", join "|" (probes.map fun _ => "X:ValueError")), ("spec2", join "|" (specs2.map outWire)),
+                  ("trunc2", join "|" (probes.map fun _ => "0"))]
+      kv ([("impl", join "|" (impls.map outWire)), ("spec", join "|" (specs.map outWire)),
           ("trunc", join "|" trunc), ("kf", join "," flags),
-          ("ranges", toString wb.ranges.length), ("cells", toString wb.cells.length)]
+          ("ranges", toString wb.ranges.length), ("cells", toString wb.cells.length)] ++ second)
     | o =>
       kv [("impl", join "|" (probes.map fun _ => outWire (o.map fun _ => V.s .blank))),
           ("spec", join "|" (specs.map outWire)), ("trunc", join "|" (probes.map fun _ => "0")),
           ("kf", ""), ("compile", "crash")]
-  | _, _, _, _ => "error=bad-args"
+  | _, _, _, _, _ => "error=bad-args"
 
 def handleRR (ranges dflt : Text) (spec : Option Spec.C03.Range) : String :=
   let specKv : List (String × String) :=
@@ -264,7 +314,8 @@ def handle (fields : List String) : String :=
     match textArg? r, textArg? d, parseText? sh, c1.toNat?, r1.toNat?, c2.toNat?, r2.toNat? with
     | some r, some d, some sh, some c1, some r1, some c2, some r2 => handleRR r d (some ⟨sh, c1, r1, c2, r2⟩)
     | _, _, _, _, _, _, _ => "error=bad-args"
-  | ["EV", dflt, items, names, probes] => handleEV dflt items names probes
+  | ["EV", dflt, items, names, probes] => handleEV dflt items names probes ""
+  | ["EV", dflt, items, names, probes, updates] => handleEV dflt items names probes updates
   | _ => "error=bad-request"
 
 end XlVerif.Drv.C03
